@@ -49,18 +49,26 @@ def vulnDiffAux : List Nat → List Nat → List Nat → List Nat × List Nat
 
 def vulnDiff (old new : List Nat) : List Nat × List Nat := vulnDiffAux new old.eraseDups []
 
+/-- `resolution.MakeRequirementKey`: the package name together with what else identifies a manifest
+ENTRY — for npm the `KnownAs` alias (0 = none), for Maven the origin / type / classifier code.  Two
+entries for one package (`"lib": "^1"` and `"lib-legacy": "npm:lib@^1"`) have different keys. -/
+abbrev Key := Nat × Nat
+
 /-- the requirement loop: a requirement of the new manifest whose key is unknown is an addition
-(VersionFrom ""), one whose version changed is an update; `none` stands for "" -/
+(VersionFrom ""), one whose version changed is an update; `none` stands for "".  The resulting
+`PackageUpdate` carries Name = key.1 and the old requirement's Type, i.e. the whole key: the final
+`SortFunc` + `CompactFunc` compare (Name, VersionFrom, VersionTo, Type), so updates of different
+entries are never merged. -/
 structure ReqUpdate where
-  key : Nat
+  key : Key
   frm : Option Nat
   to : Nat
 deriving Repr, DecidableEq
 
-def lookupReq (reqs : List (Nat × Nat)) (k : Nat) : Option Nat :=
+def lookupReq (reqs : List (Key × Nat)) (k : Key) : Option Nat :=
   (reqs.reverse.find? (·.1 = k)).map (·.2)       -- `oldReqs[key] = req` in a loop: the last one stays
 
-def reqDiff (old new : List (Nat × Nat)) : List ReqUpdate :=
+def reqDiff (old new : List (Key × Nat)) : List ReqUpdate :=
   new.filterMap fun (k, v) =>
     match lookupReq old k with
     | none => some ⟨k, none, v⟩
